@@ -10,7 +10,7 @@ from sim.driver import Report, seeds_for
 from sim.minimize import Budget, ddmin, drop_one_at_a_time
 
 PROP = "C19"
-TIERS = {"quick": {"runs": 6000, "budget": 55.0}, "thorough": {"runs": 400000, "budget": 1500.0}}
+TIERS = {"quick": {"runs": 5000, "budget": 45.0}, "thorough": {"runs": 400000, "budget": 1500.0}}
 
 _R = None
 
